@@ -53,7 +53,67 @@ fn gen_pair(rng: &mut Rng) -> Pair {
         // selected alternative / class field. The target itself contains no reference of that kind.
         let v = *rng.pick(&[9i64, 200, 70000]);
         let lv = format!("@Lv0 INTEGER ::= {v}\n");
-        return match rng.below(10) {
+        return match rng.below(18) {
+            // ---- shapes reported by independent readers of the property (eighth round)
+            10 => {
+                let of = *rng.pick(&["SET OF", "SEQUENCE OF"]);
+                Pair {
+                    family: "components-of",
+                    class: format!("SEQUENCE,position=last,user-is-the-element-of-a-{}", of.replace(' ', "-")),
+                    helpers: "@HTs ::= SEQUENCE { hq0 INTEGER, hq1 BOOLEAN }\n".into(),
+                    sugared: format!("Tq1 ::= {of} SEQUENCE {{ fq0 NULL, COMPONENTS OF @HTs }}\n"),
+                    expanded: format!("Tq1 ::= {of} SEQUENCE {{ fq0 NULL, hq0 INTEGER, hq1 BOOLEAN }}\n"),
+                }
+            }
+            11 => Pair {
+                family: "components-of",
+                class: "SEQUENCE,position=last,referenced-through-a-type-reference".into(),
+                helpers: "@HTs ::= SEQUENCE { hq0 INTEGER, hq1 BOOLEAN }\n@HTa ::= @HTs\n".into(),
+                sugared: "Tq1 ::= SEQUENCE { fq0 NULL, COMPONENTS OF @HTa }\n".into(),
+                expanded: "Tq1 ::= SEQUENCE { fq0 NULL, hq0 INTEGER, hq1 BOOLEAN }\n".into(),
+            },
+            12 => Pair {
+                family: "parameterized-type",
+                class: "params=1,instantiations=2,template-contains-components-of".into(),
+                helpers: "@HTs ::= SEQUENCE { hq0 INTEGER }\n@HTp {T} ::= SEQUENCE { aq1 T, COMPONENTS OF @HTs }\n".into(),
+                sugared: "Tq1 ::= @HTp {BOOLEAN}\nTq2 ::= @HTp {NULL}\n".into(),
+                expanded: "Tq1 ::= SEQUENCE { aq1 BOOLEAN, hq0 INTEGER }\nTq2 ::= SEQUENCE { aq1 NULL, hq0 INTEGER }\n".into(),
+            },
+            13 => Pair {
+                family: "parameterized-type",
+                class: "params=2,instantiations=1,constraint-on-the-dummy-type-uses-the-dummy-value".into(),
+                helpers: "@HTp {T, INTEGER: lo} ::= SEQUENCE { aq1 T (SIZE (1..lo)) }\n".into(),
+                sugared: "Tq1 ::= @HTp {OCTET STRING, 3}\n".into(),
+                expanded: "Tq1 ::= SEQUENCE { aq1 OCTET STRING (SIZE (1..3)) }\n".into(),
+            },
+            14 => Pair {
+                family: "parameterized-type",
+                class: "params=1,instantiations=1,constraint-on-a-type-reference-uses-the-dummy-value".into(),
+                helpers: "@HTo ::= INTEGER (0..7)\n@HTp {INTEGER: lo} ::= SEQUENCE { aq1 @HTo (lo..7) }\n".into(),
+                sugared: "Tq1 ::= @HTp {3}\n".into(),
+                expanded: "Tq1 ::= SEQUENCE { aq1 @HTo (3..7) }\n".into(),
+            },
+            15 => Pair {
+                family: "parameterized-type",
+                class: "params=1,instantiations=1,template-refers-to-an-ordinary-type".into(),
+                helpers: "@HTo ::= INTEGER (0..7)\n@HTp {T} ::= SEQUENCE { aq1 T, aq2 @HTo }\n".into(),
+                sugared: "Tq1 ::= @HTp {BOOLEAN}\n".into(),
+                expanded: "Tq1 ::= SEQUENCE { aq1 BOOLEAN, aq2 @HTo }\n".into(),
+            },
+            16 => Pair {
+                family: "selection-type",
+                class: "assignment,selected-alternative-is-a-fixed-type-class-field".into(),
+                helpers: "@HCLS ::= CLASS { &id INTEGER (0..255) UNIQUE, &Type }\n@HTc ::= CHOICE { sq0 @HCLS.&id, sq1 NULL }\n".into(),
+                sugared: "Tq1 ::= sq0 < @HTc\n".into(),
+                expanded: "Tq1 ::= INTEGER (0..255)\n".into(),
+            },
+            17 => Pair {
+                family: "parameterized-type",
+                class: "params=1,instantiations=1,dummy-value-as-DEFAULT".into(),
+                helpers: "@HTp {INTEGER: lo} ::= SEQUENCE { aq1 INTEGER DEFAULT lo, aq2 BOOLEAN }\n".into(),
+                sugared: "Tq1 ::= @HTp {3}\n".into(),
+                expanded: "Tq1 ::= SEQUENCE { aq1 INTEGER DEFAULT 3, aq2 BOOLEAN }\n".into(),
+            },
             9 => {
                 // the referenced type is recursive in itself (its member needs a Box *there*); the including type is not on that
                 // cycle, its copy of the member is an ordinary reference
@@ -394,7 +454,7 @@ fn check(seed: u64, idx: u64, rep: &mut Report) {
     // independence of helper-name spelling / definition order
     if results[0].1 .0 != results[1].1 .0 || results[0].1 .1 != results[1].1 .1 {
         rep.violations.push(Violation {
-            sig: format!("c09|{}|depends-on-helper-name-order{}", p.family, if p.class.contains("global-value-named-like-dummy") { "|global-value-named-like-dummy" } else if p.class.contains("nested-components-of") { "|nested-components-of" } else { "" }),
+            sig: format!("c09|{}|depends-on-helper-name-order{}", p.family, if p.class.contains("global-value-named-like-dummy") { "|global-value-named-like-dummy" } else if p.class.contains("nested-components-of") { "|nested-components-of" } else if p.class.contains("template-contains-components-of") { "|template-contains-components-of" } else if p.class.contains("selected-alternative-is-a-fixed-type-class-field") { "|selected-alternative-is-a-fixed-type-class-field" } else { "" }),
             what: format!("the sugared form compiles differently when the referenced definition sorts before (`Aq*`) vs after (`Zq*`) `Tq1`: {}", one_line(p.sugared.trim(), 120)),
             replay: json!({"a": render(&p.sugared, "Aq"), "z": render(&p.sugared, "Zq"), "seed": seed, "idx": idx}),
         });
